@@ -67,6 +67,29 @@ Section MoveTie.
       - split; auto.
       - intros; discriminate.
     Qed.
+
+    (* the WHOLE generated pvAddNogrow (the <false> instantiation used by the migration; fuel 70 covers tables of up to 70 buckets):
+       "Hash table is full" iff the model's add_loop fails; otherwise the position names the bucket where tadd puts the item, mCount is
+       unchanged and the probe count handed to startBucket.UpdateMaxProbe (recorded in rec_maxprobe) is the one tadd hands to upd_bound *)
+    Theorem gen_addnogrow_whole : forall start hc blog bp (badd : Z -> Z -> Z -> Z -> Z -> Z -> Z) ver (mkpos : Z -> Z -> Z -> Z) c cp mb rmp creator,
+      0 <= tlog B t -> bcount B t <= 70 ->
+      let i0 := start hc (bcount B t) in
+      Gen_HashSetMove.pvAddNogrow blog bp full nexti start badd ver at_ mkpos (fun _ => bcount B t) c cp mb rmp 0 hc creator =
+        match add_loop B b0 cap wf0 next (Z.to_nat (bcount B t - 1)) t 0 i0 with
+        | Some (i, q) => Ok (mkpos i (badd i bp creator hc blog (Z.of_nat q)) ver, c, Z.of_nat q)
+        | None => Exn
+        end.
+    Proof.
+      intros start hc blog bp badd ver mkpos c cp mb rmp creator Hl Hb i0.
+      assert (Hpos : 0 < bcount B t) by (unfold bcount; apply Z.pow_pos_nonneg; lia).
+      unfold Gen_HashSetMove.pvAddNogrow, Gen_HashSetMove.fuel_of_pvAddNogrow. cbv zeta.
+      replace (Z.to_nat 70) with (S (Z.to_nat (bcount B t - 1)) + Z.to_nat (70 - bcount B t))%nat by lia.
+      change (at_ 0 (start hc (bcount B t))) with (start hc (bcount B t)).
+      rewrite (gen_addnogrow_loop (Z.to_nat (bcount B t - 1)) 0 (start hc (bcount B t)) hc (Z.to_nat (70 - bcount B t)));
+        [| lia | lia | apply Z.le_lt_trans with 70; [exact Hb | reflexivity]].
+      change (Z.to_nat 0) with O. fold i0.
+      destruct (add_loop B b0 cap wf0 next (Z.to_nat (bcount B t - 1)) t 0 i0) as [[i q]|]; reflexivity.
+    Qed.
   End Add.
 
   (* ---------------- pvRelocateItems(Buckets ptr): the loop skeleton ---------------- *)
